@@ -90,9 +90,7 @@ Proof.
     apply (specified_cont cont_t); [reflexivity | exact Hs].
   - cbn [seg_sem] in *. destruct last; [reflexivity|].
     apply flat_map_ext_in. intros x Hx. apply Hk. apply (specified_flat_map _ _ Hs x Hx).
-  - cbn [seg_sem] in *. fold cont_t in Hs |- *.
-    destruct (true && negb last && match n with NSet _ (_ :: _) => true | _ => false end); [discriminate|].
-    cbn [andb]. apply Hcont. exact Hs.
+  - cbn [seg_sem] in *. fold cont_t in Hs |- *. apply Hcont. exact Hs.
 Qed.
 
 Lemma sem_segs_strict_eq (Pt Pf : ppath -> bool -> node -> list selres) segs :
